@@ -884,6 +884,7 @@ func (e *v16Engine) session(cfg v16Cfg, h *Socks5Handler, sc v16Script) {
 	input := map[string]any{"client_address": e.client.name + " " + e.client.addr.String(), "config": cfg.name, "commands": cfg.cmds, "credentials": fmt.Sprint(cfg.creds), "script": sc.name, "bytes": hex.EncodeToString(sc.b)}
 	if o.panicMsg != "" {
 		e.out.Fail("C16:handler:panic", o.panicMsg, input)
+		e.out.Fail("C04:socks5-handler:panic", o.panicMsg, input) // the same failure for the no-panic property, which this engine also serves
 		return
 	}
 	if o.hang {
@@ -1303,6 +1304,50 @@ func TestVerifC16(t *testing.T) {
 		run(ci, ki, sc)
 		count++
 	}
+	// 3b. the bytes of a configured user name and password cut at every other boundary (including an
+	//     empty user name / an empty password), and names and passwords of two configured pairs
+	//     glued together or swapped: none of these is a configured pair
+	for ki := range credSets {
+		cfg, h := get(1, ki)
+		if h == nil || len(cfg.creds) == 0 {
+			continue
+		}
+		type up struct{ u, p string }
+		seen := map[up]bool{}
+		var tries []up
+		add := func(u, p string) {
+			if len(u) > 255 || len(p) > 255 || seen[up{u, p}] {
+				return
+			}
+			seen[up{u, p}] = true
+			tries = append(tries, up{u, p})
+		}
+		for _, c := range cfg.creds {
+			s := c.expK + c.expV
+			for b := 0; b <= len(s); b++ {
+				add(s[:b], s[b:])
+			}
+			for _, d := range cfg.creds {
+				if d != c {
+					add(c.expK, d.expV)
+					add(c.expK+c.expV, d.expK+d.expV)
+					add(c.expK+d.expK, c.expV+d.expV)
+					add(c.expK+c.expV+d.expK, d.expV)
+				}
+			}
+		}
+		for _, t := range tries {
+			var b []byte
+			b = append(b, e.gen.methods(1)...)
+			b = append(b, v16Auth(1, t.u, t.p)...)
+			reqOff := len(b)
+			rq, _, _ := e.gen.request(5, 1, 0, 0, tgt.port)
+			b = append(b, rq...)
+			b = append(b, "hello"...)
+			run(1, ki, v16Script{name: fmt.Sprintf("methods1+auth:resplit(%q,%q)+req(ver=5,cmd=1,form=0,port=%d)", t.u, t.p, tgt.port), b: b, reqOff: reqOff})
+			count++
+		}
+	}
 	// 4. the address the client connection reports: UDP ASSOCIATE announcing no address (three ways)
 	//    and an explicit one, from clients with a zoned link-local address, an IPv4-mapped address,
 	//    a non-TCP net.Addr, ... A real datagram cannot come from most of these addresses here, so
@@ -1356,7 +1401,9 @@ func v16PinCases(out *vOut) {
 				func() {
 					defer func() {
 						if r := recover(); r != nil {
-							out.Fail("C16:handler:panic", fmt.Sprint(r), map[string]any{"rewriter": true, "client": cl.name, "announced": ann.String()})
+							in := map[string]any{"rewriter": true, "client_address": cl.name + " " + cl.addr.String(), "command": cmd, "announced": ann.String()}
+							out.Fail("C16:handler:panic", fmt.Sprint(r), in)
+							out.Fail("C04:socks5-handler:panic", fmt.Sprint(r), in)
 						}
 					}()
 					_, spec := associateSourceRewriter{}.Rewrite(context.Background(), req)
